@@ -1012,6 +1012,56 @@ def value_out_of_bounds(m, op):
     return False
 
 
+_BEH_RNG = np.random.RandomState(1414)
+_BEH_U = _BEH_RNG.rand(6, 5)          # fixed pseudo-random unit-cube coordinates (up to 6 rows, 5 points)
+
+
+def behaviour_diff(m, f):
+    """first public geometric / covariance behaviour on which the live model `m` differs from the freshly constructed `f`
+    (both have equal observable state at this point), else None.  This is what 'the model equals one constructed directly'
+    means for a user: a stale internal cache would not show in the attributes."""
+    def both(fn):
+        out = []
+        for obj in (m, f):
+            try:
+                with warnings.catch_warnings():
+                    warnings.simplefilter("ignore")
+                    out.append(("ok", np.asarray(fn(obj), dtype=float)))
+            except Exception as e:   # noqa
+                out.append(("err", type(e).__name__))
+        return out
+
+    def differs(fn):
+        a, b = both(fn)
+        if a[0] != b[0]:
+            return True
+        if a[0] == "err":
+            return a[1] != b[1]
+        return a[1].shape != b[1].shape or not np.allclose(a[1], b[1], rtol=1e-9, atol=1e-12, equal_nan=True)
+
+    fd = int(m.field_dim)
+    if m.latlon:
+        X = np.vstack([_BEH_U[0] * 160 - 80, _BEH_U[1] * 340 - 170] + ([_BEH_U[2] * 10] if m.temporal else []))
+    else:
+        X = _BEH_U[:fd] * 10 - 5
+    ls = float(m.len_scale)
+    r = np.array([0.0, 0.3, 1.0, 4.0]) * ls
+    tests = [("isometrize", lambda o: o.isometrize(X)), ("anisometrize", lambda o: o.anisometrize(o.isometrize(X))),
+             ("variogram", lambda o: o.variogram(r)), ("cov_nugget", lambda o: o.cov_nugget(r)),
+             ("len_scale_vec", lambda o: o.len_scale_vec), ("sill", lambda o: o.sill)]
+    if m.latlon:
+        tests.append(("vario_yadrenko", lambda o: o.vario_yadrenko(np.array([0.0, 0.2, 1.0, 3.0]))))
+    else:
+        tests += [("main_axes", lambda o: o.main_axes()), ("cov_spatial", lambda o: o.cov_spatial(X)),
+                  ("vario_spatial", lambda o: o.vario_spatial(X))]
+        for ax in range(int(m.dim)):
+            tests.append((f"vario_axis", lambda o, ax=ax: o.vario_axis(r, axis=ax)))
+    for name, fn in tests:
+        if differs(fn):
+            return name
+    return None
+
+
 def history_search(ctx, n_hist, n_ops):
     rng = np.random.RandomState(ctx.seed + 1400)
     viol, ev = [], 0
@@ -1133,6 +1183,19 @@ def history_search(ctx, n_hist, n_ops):
                             if all(_close(a[k], fobs[k], 1e-9) for k in keys) and len(a["opt"]) == len(fobs["opt"]) and \
                                     all(x[0] == y[0] and _close(x[1], y[1], 1e-9) for x, y in zip(a["opt"], fobs["opt"])):
                                 fp = 0
+                    if fp == 0:
+                        # (7) ... and BEHAVES like it (stale internal caches do not show in the attributes)
+                        try:
+                            with warnings.catch_warnings():
+                                warnings.simplefilter("ignore")
+                                fm = fresh_like(cname, m)
+                            bd = behaviour_diff(m, fm)
+                        except ValueError:
+                            bd = None
+                        ev += 1
+                        if bd is not None:
+                            add("history-dependent-behaviour:" + bd,
+                                f"after `{op}` the model has the attributes of a freshly constructed one but its `{bd}` differs", case)
                     if fp != 0:
                         if stale:
                             add("stale-dim-dependent-bounds:" + cname,
